@@ -16,9 +16,20 @@ oracle = the same torch operation on the dense matrix of the same kernel object.
 relations lazy-vs-eager / transpose / diag / stacked blocks / active_dims twin on every zoo kernel for every
 TLC-enumerated broadcast pattern.
 
+History dimension (KernelPure.tla, checks/c06_pure.py): a kernel is a mutable object and every derivation (kernel[idx],
+expand_batch, K[idx], K.mT, repeat, unsqueeze, diagonal, evaluate_kernel) copies it and assigns on the copy.  TLC checks
+Pure / DerivedAgree on a heap model of the copy discipline for plain, Scale, Additive, Product and nested compositions
+(and LayoutOK: the block -> interleaved shuffle of the derivative kernels' diag=True branch); the replay runs every
+history evaluate -> derive -> evaluate the ORIGINAL again on label compositions (parameters read back exactly) and on real
+compositions.  The same purity check (parameter / buffer fingerprint of the kernel object after EVERY case, eager
+re-evaluation after a deterministic quarter of them and after every kernel operation) runs inside the two sections above.
+Every zoo instance has pairwise distinct hyperparameters (ARD components, batch elements, members), probed to be visible.
+
 Cell signatures: C06/<operation>/<t1|mt>/<class>[/only:<kernel>] with the class computed by the spec (or 'empty-result' /
 'plain:<index kinds>' for a case the model does not flag; 'only:<kernel>' when the generic stub passes the case), and
-C06/zoo/<relation>/<kernel | any-kernel> ('any-kernel' when the plain RBF kernel fails the relation on the same pattern).
+C06/zoo/<relation>/<kernel | any-kernel> ('any-kernel' when the plain RBF kernel fails the relation on the same pattern),
+C06/pure/<operation>/<structure | t1 | mt>[/only:<kernel>] (the original object changed), C06/pure-derived/<operation>/<structure>,
+C06/diag-layout/<kernel>.
 
 Development switches (never needed for a normal run): VERIF_C06_ONLY=<regex over TLC run names>, VERIF_C06_REUSE=1 (reuse
 the dumps of an earlier --keep-build run), VERIF_C06_DUMPFAIL=<file>, VERIF_C06_DRIFTS=<n>, VERIF_C06_TLC_PAR=<n>."""
@@ -202,6 +213,35 @@ def kinds(idx):
 # ------------------------------------------------------------------------------------------------------------------
 # objects under test
 _CACHE = {}
+_FP = {}
+
+
+def purity(torch, key, full):
+    """After a case: the kernel object of the cached set-up `key` is what it was when it was built (parameters, buffers,
+    batch shapes, module tree) and - when `full` - evaluates eagerly to the same matrix.  -> None or a description; a
+    changed object is dropped from the cache so that the following cases start from a fresh one."""
+    import gpytorch
+    from checks import c06_pure as cp
+    su = _CACHE.get(key)
+    if su is None:
+        return None
+    k, x1, x2, K, D = su
+    msg = cp.fp_diff(torch, _FP[key], cp.fingerprint(torch, k, clone=False))
+    if msg is None and full:
+        with gpytorch.settings.lazily_evaluate_kernels(False):
+            ok, E2 = core.guarded(lambda: dense_of(k(x1, x2)))
+        if not ok:
+            msg = "kernel(x1, x2) now raises %s" % E2
+        elif tuple(E2.shape) != tuple(D.shape):
+            msg = "kernel(x1, x2) now has shape %s, before %s" % (list(E2.shape), list(D.shape))
+        else:
+            okc, m2 = core.close(E2, D, TOL, TOL)
+            if not okc:
+                msg = "kernel(x1, x2) evaluated again differs from the first evaluation: %s" % m2
+    if msg is not None:
+        _CACHE.pop(key, None)
+        _FP.pop(key, None)
+    return msg
 
 
 def dense_of(r):
@@ -267,6 +307,8 @@ def setup(cfg, pat, kname, square=False):
     with gpytorch.settings.lazily_evaluate_kernels(True):
         K = k(x1, x2)
     _CACHE[key] = (k, x1, x2, K, E)
+    from checks import c06_pure as cp
+    _FP[key] = cp.fingerprint(torch, k)
     return _CACHE[key]
 
 
@@ -410,6 +452,7 @@ def replay_state(torch, cfg, pat, hist, knames, thorough):
         return [dict(key=key0, ok=True, nontrivial=False, n=1)]
     nontrivial = ref.numel() > 0 and (last["op"] != "getitem" or ref.numel() < L.numel() or list(ref.shape) != list(L.shape))
     stub_ok = None
+    stub_pure = None
     for kn in knames:
         su = setup(cfg, pat, kn, square and kn != "stub")
         if su is None:
@@ -462,7 +505,27 @@ def replay_state(torch, cfg, pat, hist, knames, thorough):
         if not res["ok"]:
             res["case"] = dict(kind="state", cfg=cfg, pat=[list(x) for x in pat], hist=hist, kernel=kn)
         out.append(res)
+        pr = pure_result(torch, cfg, pat, hist, kn, square and kn != "stub", key0, stub_pure, res)
+        out.extend(pr)
+        if kn == "stub":
+            stub_pure = not pr
     return out
+
+
+def pure_result(torch, cfg, pat, hist, kn, square, key0, stub_pure, res, dpat=None):
+    """The ORIGINAL kernel object (shared by every case of this worker on the same set-up) after the case: [] or one failing result."""
+    ckey = (cfg["name"], tuple(map(tuple, dpat if dpat is not None else pat)), kn, square)
+    last = hist[-1]
+    full = last["op"] in ("kgetitem", "kexpand") or int(core.digest(key0), 16) % 4 == 0
+    msg = purity(torch, ckey, full)
+    res["n"] = res.get("n", 1) + (2 if full else 1)
+    if msg is None:
+        return []
+    op = last["op"] if (last["op"] != "getitem" or len(hist) == 1) else "getitem-chain"
+    sig = "C06/pure/%s/%s" % (op, "t1" if cfg["t"] == 1 else "mt") + ("/only:" + kn if kn != "stub" and stub_pure else "")
+    return [dict(key=key0 + [kn, "pure"], ok=False, nontrivial=True, sig=sig,
+                 detail="%s%s: the operation changed the ORIGINAL kernel object: %s" % (describe(cfg, pat, hist), "" if kn == "stub" else " [kernel %s]" % kn, msg),
+                 case=dict(kind="state", cfg=cfg, pat=[list(x) for x in pat], hist=hist, kernel=kn))]
 
 
 def replay_kernel_op(torch, cfg, pat, hist, knames, desc):
@@ -487,6 +550,7 @@ def replay_kernel_op(torch, cfg, pat, hist, knames, desc):
     tk = "t1" if cfg["t"] == 1 else "mt"
     cell0 = "C06/%s/%s/%s" % ("kernel-getitem" if h["op"] == "kgetitem" else "expand_batch", tk, "active_dims" if cfg["ad"] else "no-active_dims")
     stub_ok = None
+    stub_pure = None
     for kn in knames:
         cell = cell0 + ("/only:" + kn if kn != "stub" and stub_ok and not cfg["ad"] else "")
         # data with the parameter batch shape (kernel[idx]) or without batch (expand_batch): the dense matrix of the
@@ -543,6 +607,10 @@ def replay_kernel_op(torch, cfg, pat, hist, knames, desc):
         if not res["ok"]:
             res["case"] = dict(kind="state", cfg=cfg, pat=[list(x) for x in pat], hist=hist, kernel=kn)
         out.append(res)
+        pr = pure_result(torch, cfg, pat, hist, kn, False, key0, stub_pure, res, dpat=dpat)
+        out.extend(pr)
+        if kn == "stub":
+            stub_pure = not pr
     return out
 
 
@@ -591,9 +659,30 @@ def _state_worker(item):
 
 # ------------------------------------------------------------------------------------------------------------------
 # metamorphic relations on the zoo, per broadcast pattern
+def symmetry_probe(torch, z, k, x1, x2, E, pat, desc):
+    """Vacuity guard of 'pairwise distinct parameters': the distinct ARD components / batch elements are VISIBLE in the matrix
+    (otherwise a relation could hold by symmetry and a permuted / mis-indexed parameter would go unnoticed)."""
+    import gpytorch
+    PB, D1, D2 = [tuple(x) for x in pat]
+    out = []
+    with gpytorch.settings.lazily_evaluate_kernels(False):
+        if z.ard and not PB and not D1 and not D2:
+            perm = torch.arange(x1.shape[-1] - 1, -1, -1)
+            ok, Ep = core.guarded(lambda: dense_of(k(x1[..., perm], x2[..., perm])))
+            if ok and float((Ep - E).abs().max()) < 1e-6:
+                out.append(dict(key=["zoo", z.name, "probe-ard"], ok=True, nontrivial=False, vacuous="%s: reversing the input columns does not change the matrix: the per-dimension parameters are not distinguishable" % desc))
+        if PB and not D1 and not D2:
+            flat = E.reshape(-1, *E.shape[-2:])
+            gap = min(float((flat[i] - flat[j]).abs().max()) for i in range(flat.shape[0]) for j in range(i))
+            if gap < 1e-6:
+                out.append(dict(key=["zoo", z.name, "probe-batch"], ok=True, nontrivial=False, vacuous="%s: two batch elements of the parameter batch give the same matrix on the same data" % desc))
+    return out
+
+
 def _zoo_worker(item):
     import gpytorch
     from checks import c06_kernels as kz
+    from checks import c06_pure as cp
     torch = core.setup_torch()
     z = kz.by_name(item["kernel"])
     out = []
@@ -621,6 +710,9 @@ def _zoo_worker(item):
             if not ok or not ok2:
                 out.append(dict(key=["zoo", z.name, pat, use_ad, "not-evaluable"], ok=True, nontrivial=False, skipped="%s: eager evaluation raises (%s): outside the kernel's domain, not decided here" % (desc, E if not ok else Exx)))
                 continue
+            fp0 = cp.fingerprint(torch, k)
+            if item.get("probe") and not use_ad:
+                out.extend(symmetry_probe(torch, z, k, x1, x2, E, pat, desc))
 
             def rel(name, fn, want, nontrivial=True):
                 r = dict(key=["zoo", z.name, [list(x) for x in pat], use_ad, name], ok=True, nontrivial=nontrivial)
@@ -677,6 +769,37 @@ def _zoo_worker(item):
             # slices WITHOUT an explicit stop on the other axis (the default stop is the size of that axis)
             rel("lazy-rows", lazy(lambda: k(x1, x2)[..., 0:t, :]), E[..., 0:t, :])
             rel("lazy-cols", lazy(lambda: k(x1, x2)[..., :, t:]), E[..., :, t:])
+            # derived objects that own a NEW kernel object: a batch index on the lazy tensor, kernel[i]; the value of K[i] is judged
+            # where the parameter batch is aligned with the output batch (the unaligned forms are classes of LazyKernel.tla)
+            if B:
+                with gpytorch.settings.lazily_evaluate_kernels(True):
+                    Kb = k(x1, x2)  # created before the derivation, evaluated after it
+                if len(PB) in (0, len(B)):
+                    rel("lazy-batch-int", lazy(lambda: Kb[B[0] - 1]), E[B[0] - 1])
+                    rel("lazy-batch-tensor", lazy(lambda: Kb[torch.tensor([B[0] - 1, 0])]), E[torch.tensor([B[0] - 1, 0])])
+                else:
+                    core.guarded(lambda: Kb[B[0] - 1])
+                if PB:
+                    core.guarded(lambda: k[PB[0] - 1])
+                    core.guarded(lambda: k.expand_batch(torch.Size((2,) + PB)))
+                rel("pure(K.to_dense() after K[i])", lambda: dense_of(Kb), E)
+                if len(PB) in (0, len(B)):
+                    rel("pure(K[0] after K[i])", lazy(lambda: Kb[0]), E[0])
+            # ... and after everything above (lazy tensors, transposes, diagonals, slices, batch indices): the kernel object is what
+            # it was and evaluates to the same matrix
+            def again():
+                with gpytorch.settings.lazily_evaluate_kernels(False):
+                    return dense_of(k(x1, x2))
+            rel("pure(kernel(x1,x2) again)", again, E)
+            d1 = cp.fp_diff(torch, fp0, cp.fingerprint(torch, k))
+
+            def fp_same():
+                if d1:
+                    raise RuntimeError("the kernel object changed: " + d1)
+                return torch.zeros(1)
+            rel("pure(kernel object)", fp_same, torch.zeros(1), nontrivial=False)
+            if d1:  # the relations below would only repeat the corruption
+                continue
             if use_ad:
                 # active_dims reads back as given (order included), wherever the zoo entry puts it
                 def readback():
@@ -748,7 +871,9 @@ def run(ck):
                "index tensors, zipped pairs), el (ellipsis placements), bx/be/bf (ints, slices, index tensors on the batch axes x representative "
                "matrix indices), chains K[i][j], transpose / unsqueeze / repeat / diagonal, kernel[idx] / expand_batch; each executed on the label stub "
                "(exact) and on zoo kernels (1e-10); plus zoo kernel x broadcast pattern x relation (lazy-vs-eager, transpose, diag, stacked block, "
-               "active_dims twin).  non-trivial = valid operation whose result is non-empty and differs from the untouched tensor (index selects a "
+               "active_dims twin, batch index, purity of the kernel object); plus every KernelPure.tla history evaluate -> derive -> evaluate the ORIGINAL "
+               "again (structures plain / Scale / Additive / Product / nested, label and real compositions) and diag-layout case (n, d, order) decoded "
+               "on the ARD derivative kernels.  non-trivial = valid operation whose result is non-empty and differs from the untouched tensor (index selects a "
                "proper subset or reshapes); distinct = distinct (configuration, operation, kernel)")
     ck.assumptions = ["float64, 1 thread, seeded hyperparameters distinct per batch element; tolerance 1e-10 relative+absolute against the dense matrix of the same kernel object",
                       "index expressions invalid for the shape (torch raises on the dense matrix) are enumerated but give no verdict (the property quantifies over valid expressions)",
@@ -756,6 +881,8 @@ def run(ck):
                       "last_dim_is_batch (deprecated) is not exercised; KeOps / CUDA kernels are outside the domain",
                       "a (kernel, pattern) whose EAGER dense evaluation itself raises is outside the kernel's domain and is skipped (batch-mode support is C08's question)",
                       "diag=True is compared only for x1 == x2 (its documented precondition)",
+                      "purity is judged on what an evaluation can observe: parameters, buffers, batch shapes, module tree of the original kernel object and its matrix / diagonal evaluated again (not object identity of members, not the distance_module cache)",
+                      "the diag layout is decoded against the closed-form diagonal entries of the derivative kernels (RBF: 1, 1/l_a^2, 3/l_a^4; Matern-5/2: 1, 5/(3 l_a^2); polynomial: derivative of (x.x'+c)^p), every instance with pairwise distinct parameters",
                       "linear_operator's conversion of mixed indices to index tensors (_convert_indices_to_tensors) is modelled as numpy-correct"]
     ck.exhaustive = True
     wd = os.path.join(tlc.BUILD, PID, "mc")
@@ -778,8 +905,13 @@ def run(ck):
                                  coverage=False, heap="4g", java_opts=("-XX:ParallelGCThreads=2", "-XX:CICompilerCount=2")))
     t0 = os.times()
     PP = [r for r in P if "Agree" in r["inv"]]
-    allres = _run_tlc([job(r, False) for r in P] + [job(r, True) for r in PP])
-    results, pures = allres[:len(P)], allres[len(P):]
+    from checks import c06_pure as cp
+    KP, kpjobs = cp.jobs(thorough)
+    if only:
+        keep = [i for i, r in enumerate(KP) if re.search(only, "kp_" + r["name"])]
+        KP, kpjobs = [KP[i] for i in keep], [kpjobs[i] for i in keep]
+    allres = _run_tlc([job(r, False) for r in P] + [job(r, True) for r in PP] + kpjobs)
+    results, pures, kpres = allres[:len(P)], allres[len(P):len(P) + len(PP)], allres[len(P) + len(PP):]
     predicted = {}
     for r, res in zip(PP, pures):
         ck.add_tlc(res, "pure_" + r["name"])
@@ -863,6 +995,41 @@ def run(ck):
     ck.section("replay", cases=len(results))
     t2 = os.times()
     ck.extra["cpu_seconds"]["replay"] = round(t2.children_user + t2.children_system - t1.children_user - t1.children_system, 1)
+    # the history dimension: KernelPure.tla (evaluate -> derive -> evaluate the original again; diag layout)
+    pitems, certs = [], {}
+    for r, res in zip(KP, kpres):
+        ck.add_tlc(res, "kp_" + r["name"])
+        if res.violation is not None:
+            raise tlc.TLCError("KernelPure.tla: %s violated on the model of the code (a defect of the specification, or the copy discipline of the code changed):\n%s" % (
+                res.violation["name"], res.stdout[-2500:]))
+        if res.rc != 0:
+            raise tlc.TLCError("TLC failed on kp_%s:\n%s" % (r["name"], res.stdout[-1500:]))
+        with open(res.dump_path) as f:
+            text = f.read()
+        hdrs = [m.start() for m in _HDR.finditer(text)]
+        ck.section("pure", runs=1, states=len(hdrs))
+        for i0 in range(0, len(hdrs), 60):
+            j = hdrs[i0 + 60] if i0 + 60 < len(hdrs) else len(text)
+            pitems.append(dict(text=text[hdrs[i0]:j], thorough=thorough, seed=ck.seed))
+        for m in r["muts"]:
+            if m != "code":
+                certs.setdefault(m, 0)
+    pres = core.pmap(cp.worker, pitems, chunksize=1)
+    for r in [r for r in pres if "cert" in r]:
+        certs[r["cert"]] = certs.get(r["cert"], 0) + (1 if r["broken"] else 0)
+    pres = [r for r in pres if "cert" not in r]
+    for m, nbroken in sorted(certs.items()):
+        if nbroken == 0:
+            ck.vacuous("KernelPure.tla: no enumerated history distinguishes the mutant model %r from the code (Pure / LayoutOK hold on it)" % m)
+    ck.extra["mutant_models_rejected"] = dict(sorted(certs.items()))
+    npure = sum(1 for r in pres if not r.get("machinery") and r["key"][0] == "pure")
+    nlay = sum(1 for r in pres if not r.get("machinery") and r["key"][0] == "lay")
+    if KP and (npure == 0 or (nlay == 0 and any(r["lay"] for r in KP))):
+        ck.vacuous("KernelPure.tla generated no %s case" % ("history" if npure == 0 else "layout"))
+    ck.section("pure", histories_replayed=npure, layout_cases=nlay)
+    t2b = os.times()
+    ck.extra["cpu_seconds"]["pure"] = round(t2b.children_user + t2b.children_system - t2.children_user - t2.children_system, 1)
+    t2 = t2b
     # metamorphic relations on the whole zoo
     if not patterns and not only:
         ck.vacuous("TLC enumerated no broadcast pattern")
@@ -870,11 +1037,14 @@ def run(ck):
     names = [z.name for z in kz.zoo()]
     for nm in names:
         for i in range(0, len(patterns), 12):
-            zitems.append(dict(kernel=nm, pats=patterns[i:i + 12], seed=ck.seed))
+            zitems.append(dict(kernel=nm, pats=patterns[i:i + 12], seed=ck.seed, probe=True))
     zres = core.pmap(_zoo_worker, zitems, chunksize=1)
     skipped = [r.pop("skipped") for r in zres if r.get("skipped")]
     ck.extra["not_evaluable"] = dict(count=len(skipped), examples=skipped[:8])
-    allr, first, seen_sig = list(results) + list(zres), [], set()
+    for r in list(zres) + list(pres):
+        if r.get("vacuous"):
+            ck.vacuous(r.pop("vacuous"))
+    allr, first, seen_sig = list(results) + list(pres) + list(zres), [], set()
     for r in allr:
         if not r.get("machinery") and not r.get("ok", True) and r["sig"] not in seen_sig:
             seen_sig.add(r["sig"])
@@ -885,7 +1055,7 @@ def run(ck):
     if os.environ.get("VERIF_C06_DUMPFAIL"):  # development: every failing cell with its detail
         import json
         with open(os.environ["VERIF_C06_DUMPFAIL"], "w") as f:
-            for r in list(results) + list(zres):
+            for r in list(results) + list(pres) + list(zres):
                 if not r.get("ok", True):
                     f.write(json.dumps(dict(sig=r["sig"], detail=r["detail"])) + "\n")
     cells = {}
@@ -899,12 +1069,16 @@ def run(ck):
 def replay(rep):
     torch = core.setup_torch()
     case = rep["case"]
-    if case["kind"] == "zoo":
+    if case["kind"] in ("pure", "lay"):
+        from checks import c06_pure as cp
+        res = cp.replay_case(case)
+        res = [r for r in res if r.get("sig") == rep["signature"]] or res
+    elif case["kind"] == "zoo":
         res = _zoo_worker(dict(kernel=case["kernel"], pats=case["pats"], seed=case.get("seed", rep.get("seed", 0))))
         res = [r for r in res if r.get("sig") == rep["signature"]] or res
     else:
         names = ["stub"] + ([case["kernel"]] if case["kernel"] != "stub" else [])  # the stub decides the '/only:<kernel>' suffix
-        res = [r for r in replay_state(torch, case["cfg"], case["pat"], case["hist"], names, True) if r.get("machinery") or r["key"][-1] == case["kernel"]]
+        res = [r for r in replay_state(torch, case["cfg"], case["pat"], case["hist"], names, True) if r.get("machinery") or r["key"][-1] == case["kernel"] or r["key"][-2:] == [case["kernel"], "pure"]]
     rc = 0
     for r in res:
         if r.get("machinery"):
